@@ -18,7 +18,7 @@ META = {
     "level": "model_checking",
     "text": "Service.tla models Evaluate/DeleteWorld/ListWorlds one action per lock operation (Go RWMutex with writer "
             "preference, worlds-map critical sections, world objects that survive deletion). TLC explores ALL "
-            "interleavings of all 2-client and (sampled in quick, all in thorough) 3-client configurations over a "
+            "interleavings of all 2-client and a seeded sample of 3-client configurations (about 100 quick / 700 thorough of 2600) over a "
             "catalogue of read-only, constant-change, state-dependent-change, add-world-with-change, delete and list "
             "requests: deadlock freedom, lock invariants, termination under fairness, and the set of reachable final "
             "worlds versus the serial outcomes. Every configuration is executed on the real grpc service: one request "
@@ -89,9 +89,11 @@ def classify(verdicts, cases, race=False):
             if cls:
                 v["key"] = "awc-mutation-under-read-lock:" + cls
         elif key.startswith("crash:") or key.startswith("panic:"):
+            # a fatal "concurrent map writes", a panic inside the overlay, or (race build) a data race report
             what = "data-race" if "DATA RACE" in (v.get("msg") or "") else key.split("@")[0]
             if cls:
-                v["key"] = "awc-mutation-under-read-lock:%s:%s" % (cls, what)
+                v["key"] = "awc-mutation-under-read-lock:" + cls
+                v["msg"] = "[%s] %s" % (what, v.get("msg") or "")
             elif race:
                 v["key"] = "%s:%s" % (what, sl.shape(c["reqs"]))
 
@@ -101,19 +103,20 @@ def run(ctx):
     n = len(CATALOGUE)
     pairs = [(0, a, b) for a in range(1, n + 1) for b in range(a, n + 1)]
     triples_all = [(a, b, c) for a in range(1, n + 1) for b in range(a, n + 1) for c in range(b, n + 1)]
-    if ctx.quick:
-        triples = rng.sample(triples_all, 100)
-        # always keep triples that extend the write-skew pair and the add-world-with-change pair
-        triples += [(8, 9, c) for c in (1, 3, 19, 21)] + [(15, 16, c) for c in (2, 20)]
-        triples = sorted(set(tuple(sorted(t)) for t in triples))
-    else:
-        triples = triples_all
+    triples = rng.sample(triples_all, ctx.pick(100, 700))
+    # always keep triples that extend the write-skew pair and the add-world-with-change pair
+    ix = {sl.req_sig(r): i + 1 for i, r in enumerate(CATALOGUE)}
+    skew = (ix["rmif(w1;n->m)"], ix["rmif(w1;m->n)"])
+    awc2 = (ix["awc(w1;w2:f1,k)"], ix["awc(w1;w2:f2,k)"])
+    triples += [skew + (ix[c],) for c in ("ro(w1;n)", "add(w1;f1,k)", "del(w1)", "list")]
+    triples += [awc2 + (ix[c],) for c in ("ro(w2;n)", "del(w2)")]
+    triples = sorted(set(tuple(sorted(t)) for t in triples))
     cfgs = pairs + triples
     reqs_of = lambda g: [CATALOGUE[i - 1] if i else sl.IDLE for i in g]
 
     # ---- 1. model checking ------------------------------------------------------------------------------------
     mod = sl.mc_module("MCService", CATALOGUE, cfgs)
-    main = ctx.tlc("MCService", cfg_text=sl.mc_cfg(3, invariants=("LockInv", "ApplyExclusive", "OneWorldPerID", "RespSound",
+    main = sl.tlc(ctx, "MCService", cfg_text=sl.mc_cfg(3, invariants=("LockInv", "ApplyExclusive", "OneWorldPerID", "RespSound",
                                                                   "SafeSerializable")),
                    files={"MCService.tla": mod}, timeout=800)
     outcomes = main.lines.get("OUTCOME", [])
@@ -121,12 +124,12 @@ def run(ctx):
     if len(serial_lines) != len(cfgs) or not outcomes:
         raise Inconclusive("TLC export incomplete: %d SERIAL lines for %d configurations, %d OUTCOME lines" % (
             len(serial_lines), len(cfgs), len(outcomes)))
-    small = pairs if ctx.quick else cfgs
+    small = pairs if ctx.quick else pairs + rng.sample(triples, 250)
     # serial schedules of the protocol = the serial reference (SerialStep is not a second opinion)
-    ctx.tlc("MCService", cfg_text=sl.mc_cfg(3, serial=True, history=False, invariants=("SerialModeOK", "LockInv")),
+    sl.tlc(ctx, "MCService", cfg_text=sl.mc_cfg(3, serial=True, history=False, invariants=("SerialModeOK", "LockInv")),
             files={"MCService.tla": sl.mc_module("MCService", CATALOGUE, small, emit_serial=False)}, timeout=600)
     # termination under weak fairness (no VIEW, no history)
-    ctx.tlc("MCService", cfg_text=sl.mc_cfg(3, history=False, properties=("Termination",), spec="FairSpec", view=False),
+    sl.tlc(ctx, "MCService", cfg_text=sl.mc_cfg(3, history=False, properties=("Termination",), spec="FairSpec", view=False),
             files={"MCService.tla": sl.mc_module("MCService", CATALOGUE, small, emit_serial=False)}, timeout=1500)
 
     serial = {}      # cfg -> set of canonical finals
@@ -243,14 +246,23 @@ def run(ctx):
             ctx.note("race build unavailable: " + str(e)[:200])
         if rb:
             rc = [dict(c, reps=5, id=i) for i, c in enumerate([c for c in cases if c["mode"] == "conc"][:400])]
-            rvs = ctx.run_cases(rb, "service", rc, timeout_ms=120000, workers=6, name="service-race")
+            import os
+            old_gorace = os.environ.get("GORACE")
+            os.environ["GORACE"] = "halt_on_error=1"     # the worker dies at the first report: attributed to the case in flight
+            try:
+                rvs = ctx.run_cases(rb, "service", rc, timeout_ms=300000, workers=6, name="service-race")
+            finally:
+                if old_gorace is None:
+                    del os.environ["GORACE"]
+                else:
+                    os.environ["GORACE"] = old_gorace
             classify(rvs, rc, race=True)
             ctx.absorb(rvs, case_of=lambda i: rc[i])
             ctx.extra_cov["race_detector_cases"] = len(rc)
     return ctx.finish(
         "model_checking",
-        rule="configurations = multisets of 2 (all) and 3 (quick: seeded sample + fixed; thorough: all) requests from a "
-             "21-entry catalogue; TLC explores every interleaving of each. Each configuration runs on the real service "
+        rule="configurations = multisets of 2 (all) and 3 (seeded sample + fixed ones) requests from a "
+             "23-entry catalogue; TLC explores every interleaving of each. Each configuration runs on the real service "
              "serially in every distinct order (exact final worlds) and concurrently `reps` times (final worlds in the serial "
              "set). distinct = distinct (mode, front end, request multiset, order/schedule).",
         assumptions=["one request per client; <= 3 clients; worlds w1 (present) and w2 (absent) at the start",
